@@ -590,3 +590,78 @@ Proof.
   - intros v Hv. destruct (Hgood _ Hv) as [_ [_ K]]. exact K.
   - intros v Hv. destruct (Hgood _ Hv) as [_ [_ K]]. exact K.
 Qed.
+
+(* ------------------------------------------------------------------ *)
+(** * The Grounded / GroundedDefeated classes are exactly the grounded extension / what it attacks *)
+
+Definition is_ng (c : eqclass) : Prop := match c with NotGrounded _ => True | _ => False end.
+
+Lemma c_step_shape : forall F nat_to st arg st', c_step F nat_to st arg = Done st' ->
+  c_classes st' = c_classes st \/ exists v, c_classes st' = c_classes st ++ [NotGrounded v].
+Proof.
+  intros F nat_to st arg st' H. unfold c_step in H.
+  destruct (nth_bool (c_in st) arg); [inversion H; left; reflexivity|].
+  cbv zeta in H.
+  match type of H with
+  | match ?X with _ => _ end = _ => destruct X as [[[ap|] props1]| |]; try discriminate
+  end.
+  - destruct (ofold _ _ _) as [[[cls inc2] props2]| |]; try discriminate.
+    inversion H. right. exists cls. reflexivity.
+  - inversion H. right. exists [arg]. reflexivity.
+Qed.
+
+Lemma grounded_exact_classes : forall F n cls, compact_af F n -> compute_classes F = Done cls ->
+  forall G, gr F G ->
+  forall c, In c cls ->
+    match c with
+    | Grounded v => forall x, In x v <-> In x G
+    | GroundedDefeated v => forall d, In d v <-> exists g, In g G /\ att F g d
+    | NotGrounded v => forall x, In x v -> ~ In x G /\ ~ exists g, In g G /\ att F g x
+    end.
+Proof.
+  intros F n cls HF Hc G HG.
+  pose proof (compute_classes_inv F n HF cls Hc) as (Hnd & _ & _).
+  unfold compute_classes in Hc.
+  destruct (grounded_classes_spec F n HF) as (P & D & Hg & _ & _ & HsP & _).
+  rewrite Hg in Hc. fold (classes0 P D) in Hc.
+  (* P is the grounded extension, D what it attacks *)
+  destruct (n_attacks_to_spec F n HF) as [Hlen Hnth].
+  destruct (grounded_exact F n HF (unattacked_args (n_attacks_to F))) with (P := P) (D := D) as [HcoP HD].
+  { intros x. unfold unattacked_args. rewrite filter_In, in_seq, Hlen, Nat.eqb_eq, Hnth.
+    rewrite length_zero_iff_nil. split; intros [H1 H2]; (split; [lia | exact H2]). }
+  { exact Hg. }
+  assert (HPG : forall x, In x P <-> In x G).
+  { destruct HG as [HGco HGmin]. intros x. split; [apply (HsP G HGco) | apply (HGmin P HcoP)]. }
+  assert (HDG : forall d, In d D <-> exists g, In g G /\ att F g d).
+  { intros d. rewrite HD. split; intros (g & H1 & H2); exists g; (split; [apply HPG; exact H1 | exact H2]). }
+  (* the class list is classes0 followed by NotGrounded classes *)
+  match type of Hc with
+  | match ofold ?f ?l ?s with _ => _ end = _ =>
+      destruct (ofold f l s) as [st| |] eqn:Eo; try discriminate;
+      assert (Hshape : exists rest, c_classes st = classes0 P D ++ rest /\ Forall is_ng rest)
+  end.
+  { match type of Eo with
+    | ofold ?f ?l0 ?s0 = _ =>
+        refine (ofold_inv _ _ f (fun _ st => exists rest, c_classes st = classes0 P D ++ rest /\ Forall is_ng rest) l0
+                  _ l0 [] s0 st _ _ _)
+    end.
+    - intros dn x rest0 s s' _ (rest & Hr & Hf) Hs. destruct (c_step_shape _ _ _ _ _ Hs) as [E|[v E]].
+      + exists rest. rewrite E. auto.
+      + exists (rest ++ [NotGrounded v]). rewrite E, Hr, app_assoc. split; [reflexivity|].
+        apply Forall_app. split; [exact Hf | constructor; [exact I | constructor]].
+    - reflexivity.
+    - exists []. cbn [c_classes]. rewrite app_nil_r. split; [reflexivity | constructor].
+    - exact Eo. }
+  inversion Hc; subst cls. clear Hc.
+  destruct Hshape as (rest & Hr & Hf). rewrite Hr in Hnd |- *.
+  destruct (classes0_spec P D) as [Hflat Hcl0].
+  intros c Hcin. apply in_app_or in Hcin. destruct Hcin as [Hcin|Hcin].
+  - destruct (Hcl0 c Hcin) as [_ [->| ->]]; assumption.
+  - rewrite Forall_forall in Hf. pose proof (Hf c Hcin) as Hng.
+    destruct c as [v|v|v]; try destruct Hng.
+    intros x Hx. rewrite flat_app, Hflat in Hnd. destruct (NoDup_app_inv _ _ Hnd) as [_ Hdis].
+    assert (Hxr : In x (flat rest)) by (apply in_flat; exists (NotGrounded v); split; [exact Hcin | exact Hx]).
+    split.
+    + intros K. apply (Hdis x); [apply in_or_app; left; apply HPG; exact K | exact Hxr].
+    + intros K. apply (Hdis x); [apply in_or_app; right; apply HDG; exact K | exact Hxr].
+Qed.
